@@ -198,7 +198,14 @@ func (ex *Exec) site(in ssa.Instruction) string {
 		}
 		loc = fmt.Sprintf("%s:%d", f, p.Line)
 	}
-	return fn.String() + "@" + loc
+	st := ""
+	for i := len(ex.curFn) - 2; i >= 0 && i >= len(ex.curFn)-6; i-- {
+		f := ex.curFn[i]
+		if f.Pkg == ex.pkg && !strings.HasPrefix(f.Name(), "Vp") && !strings.HasPrefix(f.Name(), "vp") {
+			st += " <- " + f.String()
+		}
+	}
+	return fn.String() + "@" + loc + st
 }
 
 // ---------------------------------------------------------------- VCs
